@@ -25,8 +25,19 @@ Ok == /\ T.out = "ok"
                                       /\ T.hasnull \in {0, 1}
                                       /\ T.nrows = Len(T.keys)
 
+(* scaled multi-key probes (label counts that push the mixed-radix weights across 2^31 / 2^32): only the probe rows are  *)
+(* shipped, with the label found at each row's code; the relation P1-P3 is checked on them, P4 through the number of      *)
+(* groups, which is known by construction                                                                                 *)
+ProbeOk == /\ T.out = "ok"
+           /\ Len(T.codes) = Len(T.keys) /\ Len(T.labels_at) = Len(T.keys)
+           /\ \A i \in 1..Len(T.keys) :
+                /\ (T.codes[i] = -1) <=> KeyIsNull(T.keys[i])
+                /\ T.codes[i] # -1 => T.labels_at[i] = T.keys[i]
+           /\ \A i, j \in 1..Len(T.keys) :
+                (T.codes[i] # -1 /\ T.codes[j] # -1) => ((T.codes[i] = T.codes[j]) <=> (T.keys[i] = T.keys[j]))
+           /\ T.ngroups = T.expected_ngroups
 TraceReturn == /\ tpc = "call"
-               /\ Ok
+               /\ IF "probe" \in DOMAIN T THEN ProbeOk ELSE Ok
                /\ PrintT(<<"ACCEPT", tid>>)
                /\ tpc' = "done"
                /\ UNCHANGED tid
